@@ -109,10 +109,7 @@ def IndCfg.clsOk (c : IndCfg F) : Bool :=
   | .macd f s _ _ => decide (f ≤ s)                 -- `_validate_fields` ordered them
   | .counter _ cv => !cv.isNone                     -- a `None` field is not emitted
   | .amorph fn args =>
-    fn.inMaps && decide ((args.map Prod.fst).Nodup)   -- a dict has distinct keys
-    -- `Amorph.settings` keeps truthy values only:
-    && c.fullname_override != some "" && c.name_suffix != some "" && c.round_value != 0
-    && c.candles_lifespan != some 0
+    fn.inMaps && decide ((args.map Prod.fst).Nodup)   -- nameable in a dict; a dict has distinct keys
   | _ => true
 
 def IndCfg.validB (c : IndCfg F) : Bool :=
@@ -174,27 +171,10 @@ theorem baseEntries_emitted (c : IndCfg F) : ∀ kv ∈ c.baseEntries, kv.1 ∈ 
 theorem baseEntries_keys (c : IndCfg F) : ∀ kv ∈ c.baseEntries, kv.1 ∈ initKeys :=
   fun kv h => emitted_init (baseEntries_emitted c kv h)
 
-theorem amorphEntries_emitted [PyF F] (c : IndCfg F) : ∀ kv ∈ c.amorphEntries, kv.1 ∈ emittedKeys := by
-  intro kv h
-  simp only [IndCfg.amorphEntries, List.mem_append] at h
-  have key : ∀ (k : String) (o : Option (SVal F)), kv ∈ truthyE k o → kv.1 = k := by
-    intro k o hk
-    unfold truthyE at hk
-    split at hk
-    · split at hk
-      · simp only [List.mem_singleton] at hk; rw [hk]
-      · simp at hk
-    · simp at hk
-  rcases h with (((((h | h) | h) | h) | h) | h) | h
-  · rw [key _ _ h]; decide
-  · rw [key _ _ h]; decide
-  · rw [key _ _ h]; decide
-  · rw [key _ _ h]; decide
-  · split at h
-    · rw [key _ _ h]; decide
-    · simp at h
-  · rw [key _ _ h]; decide
-  · rw [key _ _ h]; decide
+theorem amorphEntries_emitted (c : IndCfg F) : ∀ kv ∈ c.amorphEntries, kv.1 ∈ emittedKeys := by
+  obtain ⟨cls, o, s, r, tf, fill, life, cs⟩ := c
+  cases o <;> cases s <;> cases tf <;> cases life <;> cases cs <;>
+    simp [IndCfg.amorphEntries, optE, emittedKeys]
 
 theorem ne_of_mem_initKeys {k k' : String} (h : k' ∈ initKeys) (hk : k ∉ initKeys) : k' ≠ k := by
   intro he; subst he; exact hk h
@@ -351,14 +331,13 @@ theorem emitted_attr {k : String} (h : k ∈ emittedKeys) : k ∈ indicatorAttrs
   simp only [emittedKeys, List.mem_cons, List.not_mem_nil, or_false] at h
   rcases h with h | h | h | h | h | h | h <;> subst h <;> decide
 
-theorem readBase_amorphEntries (c : IndCfg F) (ho : c.fullname_override ≠ some "")
-    (hs : c.name_suffix ≠ some "") (hr : c.round_value ≠ 0) (hl : c.candles_lifespan ≠ some 0)
-    (htf : match c.timeframe with | some s => s ≠ "" | none => c.timeframe_fill = false) :
+omit [PyF F] in
+theorem readBase_amorphEntries (c : IndCfg F) (htf : c.timeframe = none → c.timeframe_fill = false) :
     readBase c.amorphEntries = .ok ⟨c.fullname_override, c.name_suffix, c.round_value, c.timeframe,
       c.timeframe_fill, c.candles_lifespan, c.candlestick_type.map .obj⟩ := by
   obtain ⟨cls, o, s, r, tf, fill, life, cs⟩ := c
-  cases o <;> cases s <;> cases tf <;> cases life <;> cases cs <;> cases fill <;>
-    simp_all [readBase, IndCfg.amorphEntries, truthyE, SVal.truthy, dlookup_cons, kwOptStr, kwInt, kwBool,
+  cases o <;> cases s <;> cases tf <;> cases life <;> cases cs <;>
+    simp_all [readBase, IndCfg.amorphEntries, optE, dlookup_cons, kwOptStr, kwInt, kwBool,
       kwOptTd, kwCs, bind, Except.bind, pure, Except.pure]
 
 omit [PyF F] in
@@ -376,15 +355,12 @@ theorem postInit_amorph (c : IndCfg F) (cls : Cls F)
 theorem build_settings_amorph (c : IndCfg F) (fn : AnaFn) (args : SDict F) (hc : c.cls = .amorph fn args)
     (hv : c.Valid) : build c.settings = .ok c := by
   -- unpack the domain
-  simp only [IndCfg.Valid, IndCfg.validB, IndCfg.clsOk, hc, Bool.and_eq_true, decide_eq_true_eq,
-    bne_iff_ne, ne_eq] at hv
-  obtain ⟨htfv, ⟨⟨⟨⟨⟨hin, hnd⟩, ho⟩, hs⟩, hr⟩, hl⟩⟩ := hv
+  simp only [IndCfg.Valid, IndCfg.validB, IndCfg.clsOk, hc, Bool.and_eq_true, decide_eq_true_eq] at hv
+  obtain ⟨htfv, hin, hnd⟩ := hv
   have htf : ∀ s, c.timeframe = some s → tfOk s = true := by
     intro s hs; rw [hs] at htfv; exact htfv
-  have htf' : match c.timeframe with | some s => s ≠ "" | none => c.timeframe_fill = false := by
-    cases h : c.timeframe with
-    | none => rw [h] at htfv; simpa using htfv
-    | some s => exact tfOk_ne_empty (htf s h)
+  have htf' : c.timeframe = none → c.timeframe_fill = false := by
+    intro h; rw [h] at htfv; simpa using htfv
   -- the settings dict
   have hset : c.settings = ("analysis", .str fn.name) :: (c.amorphEntries ++ truthyE "args" (some (.dict args))) := by
     simp only [IndCfg.settings, hc]
@@ -441,7 +417,7 @@ theorem build_settings_amorph (c : IndCfg F) (fn : AnaFn) (args : SDict F) (hc :
       dlookup_none_of_keys _ _ (hne _ (by decide))
     simp [candlesOk, this]
   simp only [constructAmorph, hder1, hargsV, hder2, hfa, hfi, hall, hcand,
-    readBase_amorphEntries c ho hs hr hl htf', postInit_amorph c _ htf, bind, Except.bind, Bool.not_true]
+    readBase_amorphEntries c htf', postInit_amorph c _ htf, bind, Except.bind, Bool.not_true]
   obtain ⟨cls0, o, s, r, tf, fill, life, cs⟩ := c
   simp only at hc
   subst hc
@@ -529,6 +505,33 @@ example : ({ cls := .ema "close" 10 (.int 2), timeframe := some "T5", timeframe_
 example : ({ cls := .amorph .rising [("indicator", .str "close"), ("length", .int 3)], timeframe := some "H1",
              round_value := 2 } : IndCfg F).Valid := by rfl
 example : ({ cls := .amorph .invertedHammer [] } : IndCfg F).Valid := by rfl
+
+/-! The witnesses of the former `amorph_round_zero_counterexample`, `amorph_zero_lifespan_counterexample` and
+`amorph_empty_suffix_counterexample` (`Amorph.settings` dropped falsy values before repair 1b1f95f): they are
+inside `Valid` now and the round trip holds on them. -/
+
+example [PyF F] :
+    let c : IndCfg F := { cls := .amorph .highest [("indicator", .str "close")], round_value := 0 }
+    c.Valid ∧ build c.settings = .ok c := by
+  intro c; exact ⟨rfl, rfl⟩
+example [PyF F] :
+    let c : IndCfg F := { cls := .amorph .positive [], candles_lifespan := some 0 }
+    c.Valid ∧ build c.settings = .ok c := by
+  intro c; exact ⟨rfl, rfl⟩
+example [PyF F] :
+    let c : IndCfg F := { cls := .amorph .positive [], name_suffix := some "" }
+    c.Valid ∧ build c.settings = .ok c := by
+  intro c; exact ⟨rfl, rfl⟩
+example [PyF F] :
+    let c : IndCfg F := { cls := .amorph .positive [], fullname_override := some "" }
+    c.Valid ∧ build c.settings = .ok c := by
+  intro c; exact ⟨rfl, rfl⟩
+/-- `timeframe_fill = False` with a timeframe is emitted (and read back) explicitly -/
+example [PyF F] :
+    let c : IndCfg F := { cls := .amorph .rising [("indicator", .str "close")], timeframe := some "T5", round_value := 0 }
+    c.Valid ∧ c.settings = [("analysis", .str "rising"), ("round_value", .int 0), ("timeframe", .str "T5"),
+      ("timeframe_fill", .bool false), ("args", .dict [("indicator", .str "close")])] := by
+  intro c; exact ⟨rfl, rfl⟩
 example : ¬ ({ cls := .ema "close" 10 (.int 2), timeframe := some "t5" } : IndCfg F).Valid := by
   intro h; cases h
 
@@ -543,28 +546,6 @@ theorem fill_without_timeframe_counterexample :
     ¬ c.Valid ∧ build c.settings = .ok { c with timeframe_fill := false } := by
   intro c
   exact ⟨fun h => (by cases h), rfl⟩
-
-/-- `Amorph.settings` keeps truthy values only, so `round_value = 0` is lost: the rebuilt Amorph rounds to 4 places -/
-theorem amorph_round_zero_counterexample :
-    let c : IndCfg F := { cls := .amorph .highest [("indicator", .str "close")], round_value := 0 }
-    ¬ c.Valid ∧ build c.settings = .ok { c with round_value := 4 } := by
-  intro c
-  exact ⟨fun h => (by cases h), rfl⟩
-
-/-- … and a zero lifespan (`timedelta(0)` is falsy) -/
-theorem amorph_zero_lifespan_counterexample :
-    let c : IndCfg F := { cls := .amorph .positive [], candles_lifespan := some 0 }
-    ¬ c.Valid ∧ build c.settings = .ok { c with candles_lifespan := none } := by
-  intro c
-  exact ⟨fun h => (by cases h), rfl⟩
-
-/-- … and an empty override / suffix (harmless: `_internal_generate_name` tests truthiness too) -/
-theorem amorph_empty_suffix_counterexample :
-    let c : IndCfg F := { cls := .amorph .positive [], name_suffix := some "" }
-    ¬ c.Valid ∧ build c.settings = .ok { c with name_suffix := none }
-      ∧ ∀ ms, (c.toInd ms).name = (({ c with name_suffix := none } : IndCfg F).toInd ms).name := by
-  intro c
-  exact ⟨fun h => (by cases h), rfl, fun ms => rfl⟩
 
 /-- an Amorph over a function that is in neither map (`above`, `below`, any user function) names it in its
 settings, and the dict cannot be built -/
@@ -611,4 +592,4 @@ end Hex.Settings
 #print axioms Hex.Settings.build_settings
 #print axioms Hex.Settings.build_settings_toInd
 #print axioms Hex.Settings.build_unknown_keyword
-#print axioms Hex.Settings.amorph_round_zero_counterexample
+#print axioms Hex.Settings.fill_without_timeframe_counterexample
